@@ -434,7 +434,7 @@ let run_f64 (c : case) =
           | "raw" -> Int64.float_of_bits (int64_of_hex t.(2))
           | "add" -> regs.(r 2) +. regs.(r 3)
           | "sub" -> regs.(r 2) -. regs.(r 3)
-          | "shl" -> regs.(r 2) *. pow2 (int_of_string t.(3))
+          | "shl" -> if regs.(r 2) = 0.0 then regs.(r 2) else regs.(r 2) *. pow2 (int_of_string t.(3))
           | "shr" -> regs.(r 2) *. pow2 (-int_of_string t.(3))
           | o -> failwith ("unknown op " ^ o)
         in
